@@ -209,7 +209,11 @@ func (c *conn) writev(bs [][]byte) (n int, err error) {
 	remaining := n
 	var sent int
 loop:
-	if sent, err = gio.Writev(c.fd, bs); err != nil {
+	iov := bs
+	if len(iov) > iovMax { // writev(2) fails with EINVAL beyond IOV_MAX segments, the rest goes out in the next round
+		iov = iov[:iovMax]
+	}
+	if sent, err = gio.Writev(c.fd, iov); err != nil {
 		// A temporary error occurs, append the data to outbound buffer,
 		// writing it back to the remote in the next round for LT mode.
 		if err == unix.EAGAIN {
